@@ -369,6 +369,25 @@ class CursorAnalysis(object):
                     for s2 in self.refine(c, s.copy(), truth):
                         res += self.assign(node, cid, br, s2, '=')
                 continue
+            if r.get('kind') == 'CallExpr' and callee(r) and callee(r)[0] == 'fn' and \
+                    callee(r)[1].get('name') in ('find', 'find_if', 'find_if_not') and len(call_args(r)) >= 2:
+                # std::find(first, last, ..): the result lies in [first, last]
+                pf, pl = self.ptr(call_args(r)[0]), self.ptr(call_args(r)[1])
+                if pf is not None and pl is not None and pf[1] == 0 and pl[1] == 0:
+                    if pf[0] == cid:
+                        # the cursor only moves forward: what trailed it still trails it
+                        a2.le = frozenset(p_ for p_ in a2.le if p_[0] != cid)
+                        a2.lt = frozenset(p_ for p_ in a2.lt if p_[0] != cid)
+                    else:
+                        a2.forget(cid)
+                        a2.le = a2.le | {(pf[0], cid)}
+                    a2.drop(cid)
+                    a2.k[cid] = ()
+                    if pl[0] != cid:
+                        a2.le = a2.le | {(cid, pl[0])}
+                    a2.closure()
+                    res.append(a2)
+                    continue
             src = self.ptr(r)
             if src is None and r.get('kind') in ('BinaryOperator', 'CompoundAssignOperator') and \
                     r.get('opcode') in ('=', '+=') and self.ptr(kids(r)[0]) is not None:
